@@ -12,6 +12,8 @@ OPTSETS = [("default", []), ("merge-sort", ["--merge-extern-blocks", "--sort-sem
            ("enum-rust", ["--default-enum-style", "rust"]), ("enum-newtype", ["--default-enum-style", "newtype"]), ("old-target", ["--rust-target", "1.70"]),
            ("derives", ["--with-derive-default", "--with-derive-partialeq"]), ("array-ptr", ["--use-array-pointers-in-arguments"]),
            ("no-size_t", ["--no-size_t-is-usize"]), ("use-core", ["--use-core"]), ("alias-newtype", ["--default-alias-style", "new_type"]),
+           ("merge-only", ["--merge-extern-blocks"]), ("merge-override", ["--merge-extern-blocks", "--override-abi", "fn[0-9]*[13579]=C-unwind"]),
+           ("override-some", ["--override-abi", "fn[0-9]*[02468]=C-unwind"]),
            ("opaque-agg", ["--opaque-type", "Ag.*"])]
 
 
@@ -99,7 +101,7 @@ def case(chk, i):
             out.append(Verdict(VIOLATED, cname, "calling through the bindings crashed (rc=%s): %s" % (rc, se[-400:]), files=files, obs=obs, signature=sig))
             continue
         lines = {}
-        csig, rsig, gdecl = {}, {}, {}
+        csig, rsig, gdecl, rabi = {}, {}, {}, {}
         called = []
         for line in so.splitlines():
             p = line.split(" ", 1)
@@ -111,6 +113,9 @@ def case(chk, i):
                 rsig[n] = dsc
             elif p[0] == "CALL":
                 called.append(p[1])
+            elif p[0] == "ABI":
+                n, a_ = p[1].split(" ")
+                rabi[n] = a_
             elif p[0] == "GDECL":
                 n, m = p[1].split(" ")
                 gdecl[n] = m
@@ -133,6 +138,20 @@ def case(chk, i):
             obs["values_compared"] += 1
             if any(g != want for g in got):
                 problems.append("%s: passed/expected %s, other side saw %s" % (label, want, got[0]))
+        # the calling convention each function is declared with: what C declares, unless an --override-abi pattern names the function
+        ov = None
+        if "--override-abi" in flags:
+            pat, ovabi = flags[flags.index("--override-abi") + 1].rsplit("=", 1)
+            ov = (re.compile("^(?:%s)$" % pat), ovabi)
+        for fn in lib.fns:
+            if fn.name not in rabi:
+                continue
+            want_abi = "win64" if getattr(fn, "abi", None) == "ms_abi" else "C"
+            if ov and ov[0].match(fn.name):
+                want_abi = ov[1]
+            obs["abis_checked"] = obs.get("abis_checked", 0) + 1
+            if rabi[fn.name] != want_abi:
+                problems.append("function %s is declared in an extern \"%s\" block, its calling convention is \"%s\"" % (fn.name, rabi[fn.name], want_abi))
         for n, dsc in rsig.items():
             if n in csig:
                 obs["signatures_compared"] += 1
